@@ -479,3 +479,21 @@ func (v *Verifier) initNonNil(g *ssa.Global) bool {
 	}
 	return n == 1 && ok
 }
+
+// repoFuncByShortName: a package-level function of the unit's package (or pkg.Name qualified).
+func (v *Verifier) repoFuncByShortName(pkg *ssa.Package, name string) *ssa.Function {
+	if pkg == nil || name == "" {
+		return nil
+	}
+	if i := strings.Index(name, "."); i > 0 {
+		for path, sp := range v.SSAPkgs {
+			if v.inRepoPkg(path) && sp.Pkg.Name() == name[:i] {
+				if f := sp.Func(name[i+1:]); f != nil {
+					return f
+				}
+			}
+		}
+		return nil
+	}
+	return pkg.Func(name)
+}
